@@ -22,6 +22,29 @@ type c02Case struct {
 	TrailHex string `json:"trailing_hex"`
 	Skipper  string `json:"skipper"`
 	Env      EnvCfg `json:"env"`
+	// huge values are regenerated on replay instead of being stored
+	HugeShape int `json:"huge_shape,omitempty"`
+	HugeN     int `json:"huge_n,omitempty"`
+}
+
+// c02Huge builds the encoding of a string (shape 0), a list<byte> (1) or a struct holding a map<bool,byte> (2) with n bytes/elements.
+func c02Huge(shape, n int) ([]byte, int8) {
+	sz := []byte{byte(n >> 24), byte(n >> 16), byte(n >> 8), byte(n)}
+	switch shape {
+	case 0:
+		return append(append(make([]byte, 0, n+4), sz...), stream(n)...), ref.STRING
+	case 1:
+		b := append(append(make([]byte, 0, n+5), ref.BYTE), sz...)
+		for i := 0; i < n; i++ {
+			b = append(b, byte(i&0x7f))
+		}
+		return b, ref.LIST
+	}
+	b := append(append(make([]byte, 0, 2*n+10), ref.MAP, 0, 1, ref.BOOL, ref.BYTE), sz...)
+	for i := 0; i < n; i++ {
+		b = append(b, byte(i&1), byte(i&0x7f))
+	}
+	return append(b, 0), ref.STRUCT
 }
 
 var c02Trailers = [][]byte{nil, {0x00}, {0xff, 0xff, 0xff}, {0x0b, 0x00, 0x00, 0x00, 0x01, 0x41}}
@@ -34,10 +57,15 @@ func c02One(c *mc.Ctx, prop string, k c02Case, enc, trail []byte) {
 		envChooser, envDevMax = mc.NewReplayChooser(k.Choices), k.DevMax
 		defer func() { envChooser, envDevMax = nil, 0 }()
 	}
+	skNeed = len(enc)
 	o := runSkipper(k.Skipper, input, k.Type, k.Env, true)
+	skNeed = 0
 	bad := func(class, format string, a ...interface{}) {
 		kk := k
 		kk.ValueHex, kk.TrailHex = hex.EncodeToString(enc), hex.EncodeToString(trail)
+		if k.HugeShape > 0 {
+			kk.ValueHex = ""
+		}
 		if envChooser != nil {
 			kk.Choices, kk.DevMax = envChooser.Choices(), envDevMax
 		}
@@ -76,6 +104,10 @@ func c02One(c *mc.Ctx, prop string, k c02Case, enc, trail []byte) {
 			bad("next-byte", "the next byte readable after the skip is %d, want %d (first trailing byte; -1 = none)", o.NextByte, want)
 			return
 		}
+	}
+	if o.LateReads > 0 {
+		bad("read-after-value-complete", "issued %d Read call(s) on the source after all %d bytes of the value had been delivered: on a live connection that blocks until the peer sends something else (data beyond the value is asked for)", o.LateReads, len(enc))
+		return
 	}
 	if k.Skipper == skReaderSkip && o.SrcOut != len(enc) {
 		bad("over-consumed-source", "pulled %d bytes from the plain io.Reader, the value is %d bytes long: nothing beyond the value may be consumed", o.SrcOut, len(enc))
@@ -175,6 +207,28 @@ func c02Run(c *mc.Ctx) {
 	}
 	c.Count("deviation-executions", devExec)
 	c.Done(fmt.Sprintf("per-Read deviations <= %d on the first 24 reads, all value trees <= 64 bytes x 3 trailers x 3 stream skippers x 2 end styles", bound))
+	// values whose length / element count needs the top byte of the 4-byte size field
+	for _, n := range []int{1<<24 - 1, 1 << 24, 1<<24 + 1, 1<<24 + 1<<16 + 3} {
+		for shape := 0; shape < 3; shape++ {
+			if !c.Mine() {
+				continue
+			}
+			enc, t := c02Huge(shape, n)
+			if r := ref.Skip(enc, t); !r.OK || r.N != len(enc) {
+				panic("huge value: generator/reference disagreement")
+			}
+			name := fmt.Sprintf("huge value: shape %d with %d bytes/elements", shape, n)
+			c.Distinct("huge", shape, n)
+			for _, sk := range allSkippers {
+				env := EnvCfg{}
+				if sk == skReaderSkip {
+					env = EnvCfg{Chunk: 1 << 20, ErrWithLast: true}
+				}
+				c02One(c, "C02", c02Case{Tree: name, Type: t, Skipper: sk, Env: env, HugeShape: shape + 1, HugeN: n}, enc, c02Trailers[2])
+			}
+		}
+	}
+	c.Done("strings of 2^24-1 .. 2^24+2^16+3 bytes and lists/maps with that many elements, on every skipper")
 	// decoder histories: several Next calls on one decoder, values of different size classes
 	c02Histories(c)
 }
@@ -192,6 +246,9 @@ func init() {
 			}
 			replayAs(raw, func(k c02Case) {
 				enc, _ := hex.DecodeString(k.ValueHex)
+				if k.HugeShape > 0 {
+					enc, _ = c02Huge(k.HugeShape-1, k.HugeN)
+				}
 				tr, _ := hex.DecodeString(k.TrailHex)
 				setAllocCap(64 << 20)
 				c02One(c, "C02", k, enc, tr)
